@@ -90,7 +90,9 @@ def gen_case(seed, idx):
     else:
         props = {a['name']: base + [e for e in extra if rng.random() < 0.5]
                  for a in arrays}
+    late = 0 if (narr > 1 and rng.random() < 0.3) else None
     return dict(idx=idx, dim=dim, kinds=kinds, rs=rs, n_layers=n_layers,
+                late=late,
                 hmax=hmax, lo=lo.tolist(), hi=hi.tolist(), props=props,
                 rounds=int(rng.integers(1, 6)),
                 move_seed=int(rng.integers(1 << 60))), arrays
@@ -102,21 +104,32 @@ def build(case, arrays):
     rng = np.random.default_rng(case['move_seed'] + 17)
     pas = []
     uid0 = 0
-    for a in arrays:
+    held = {}
+    for ai, a in enumerate(arrays):
         n = len(a['h'])
-        pa = get_particle_array(
-            name=a['name'], x=a['pos'][:, 0].copy(), y=a['pos'][:, 1].copy(),
+        data = dict(
+            x=a['pos'][:, 0].copy(), y=a['pos'][:, 1].copy(),
             z=a['pos'][:, 2].copy(), h=a['h'].copy(),
             u=rng.normal(size=n), v=rng.normal(size=n), w=rng.normal(size=n),
             m=rng.uniform(1, 2, size=n), rho=rng.uniform(1, 2, size=n),
             p=rng.normal(size=n))
-        pa.add_property('uid', type='long', data=np.arange(uid0, uid0 + n))
+        extra = dict(uid=np.arange(uid0, uid0 + n),
+                     s3=rng.normal(size=3 * n),
+                     i1=rng.integers(1, 99, size=n))
         uid0 += n
-        pa.add_property('s3', stride=3, default=-7.0,
-                        data=rng.normal(size=3 * n))
-        pa.add_property('i1', type='int', default=-3,
-                        data=rng.integers(1, 99, size=n))
+        if case.get('late') == ai:
+            # an array that is empty when the neighbour search is built and
+            # is filled afterwards (an inlet's fluid); it carries the
+            # largest smoothing length
+            held[ai] = dict(data, **extra)
+            data = {k_: v_[:0] for k_, v_ in data.items()}
+            extra = {k_: v_[:0] for k_, v_ in extra.items()}
+        pa = get_particle_array(name=a['name'], **data)
+        pa.add_property('uid', type='long', data=extra['uid'])
+        pa.add_property('s3', stride=3, default=-7.0, data=extra['s3'])
+        pa.add_property('i1', type='int', default=-3, data=extra['i1'])
         pas.append(pa)
+    case['_held'] = held
     k = case['kinds']
     lo, hi = case['lo'], case['hi']
     dm = DomainManager(
@@ -349,12 +362,18 @@ def run_case(case, arrays, mon):
     before = []
     for ai, (a, pa) in enumerate(zip(arrays, pas)):
         rr = real_rows(pa)
-        for j, u in enumerate(range(uid0, uid0 + len(a['h']))):
-            for k, c in enumerate(AX):
-                rr[u][c] = np.array([a['pos'][j, k]])
+        if ai not in case['_held']:
+            for j, u in enumerate(range(uid0, uid0 + len(a['h']))):
+                for k, c in enumerate(AX):
+                    rr[u][c] = np.array([a['pos'][j, k]])
         uid0 += len(a['h'])
         before.append(rr)
     check_round(case, pas, before, 'after construction', mon)
+    settled = True      # ghosts correspond to the present real particles
+    for ai, d in case['_held'].items():
+        pas[ai].add_particles(**d)
+        settled = False
+        mon['late_filled_arrays'] = mon.get('late_filled_arrays', 0) + 1
     for r in range(case['rounds']):
         kind = str(rng.choice(['move', 'move', 'none', 'addprop']))
         for pa in pas:
@@ -389,7 +408,8 @@ def run_case(case, arrays, mon):
         nn.update_domain()
         nn.update()
         check_round(case, pas, before, 'round %d (%s)' % (r, kind), mon)
-        if kind == 'none':
+        was_settled, settled = settled, True
+        if kind == 'none' and was_settled:
             c2 = [pa.get_number_of_particles() for pa in pas]
             if c2 != counts:
                 raise Bad('not-idempotent', 'round %d: update without motion '
